@@ -199,6 +199,7 @@ func runC06(e *env) {
 	e.m.Extra = map[string]interface{}{"mismatch_means": "model",
 		"assumptions": []string{"generated Dart is never executed nor analysed by a Dart SDK (none available): DartSem is the reading of the emitted routines written in Coq"}}
 	specs := append(corpusDart(), corpusUnions()...)
+	specs = append(specs, repoFixtures("repo-testsource-defs", "repo-testsource-other")...)
 	n := 12
 	if e.thorough() {
 		n = 200
@@ -261,7 +262,7 @@ func runC06(e *env) {
 		}
 		cases = append(cases, fmt.Sprintf("{| c6_prog := %s;\n c6_enums := %s;\n c6_ana := %s;\n c6_files := %s;\n c6_classes := %s;\n c6_unions := %s;\n c6_denums := %s |}",
 			o.Facts, o.Enums, o.Ana, coqListNL(files), coqListNL(classes), coqListNL(unions), coqListNL(enums)))
-		inputs = append(inputs, map[string]interface{}{"module": spec, "files": ir.Files, "classes": ir.Classes, "unions": ir.Unions, "enums": ir.Enums, "class": classifyDartLinks(ir)})
+		inputs = append(inputs, map[string]interface{}{"module": spec, "files": ir.Files, "classes": ir.Classes, "unions": ir.Unions, "enums": ir.Enums, "class": firstNonEmpty(spec.Class, classifyDartLinks(ir))})
 		if len(cases) == 4 {
 			e.writeCases2(fmt.Sprintf("cases_C06_%d", len(e.m.CaseFiles)), anaHeader+"From GM Require Import Model.Fields Model.Dart Corr.Check_C06.\n", "mismatches", "prop_failures", cases, inputs)
 			cases, inputs = nil, nil
@@ -333,4 +334,11 @@ func classifyDartLinks(ir *dartIR) string {
 		return "dart-implements-union-not-emitted"
 	}
 	return ""
+}
+
+func firstNonEmpty(a, b string) string {
+	if a != "" {
+		return a
+	}
+	return b
 }
